@@ -1,6 +1,7 @@
 package batchers
 
 import (
+	"bytes"
 	"compress/gzip"
 	"io"
 	"os"
@@ -63,16 +64,40 @@ func openFileToReader(filename string, gunzip bool) (io.ReadCloser, error) {
 	var file io.ReadCloser = baseFile
 
 	if gunzip {
-		zfile, err := gzip.NewReader(file)
+		probe := &recordingReader{r: baseFile, recording: true}
+		zfile, err := gzip.NewReader(probe)
 		if err != nil {
 			logger.Printf("Gunzip error for file %s: %v; Reading as plain file", filename, err)
-			baseFile.Seek(0, io.SeekStart) // Rewind, since it probably took a few bytes to figure out this wasn't a gzip file
+			// Replay what it took to figure out this wasn't a gzip file, then continue with the file itself
+			// (rewinding is not an option: pipes, /dev/stdin and process substitutions can't seek)
+			file = readCloser{io.MultiReader(bytes.NewReader(probe.recorded), baseFile), baseFile}
 		} else {
+			probe.recording, probe.recorded = false, nil
 			file = zfile
 		}
 	}
 
 	return file, nil
+}
+
+// recordingReader remembers the bytes read through it for as long as recording is on
+type recordingReader struct {
+	r         io.Reader
+	recording bool
+	recorded  []byte
+}
+
+func (s *recordingReader) Read(p []byte) (int, error) {
+	n, err := s.r.Read(p)
+	if s.recording {
+		s.recorded = append(s.recorded, p[:n]...)
+	}
+	return n, err
+}
+
+type readCloser struct {
+	io.Reader
+	io.Closer
 }
 
 // Aggregate one channel into another, with a buffer
